@@ -635,8 +635,90 @@ def M_str_parse(it, ctx, args, st):
         for s2, good in fork_bool(it, st, ok):
             yield s2, (it.ok(v) if good else it.err(Agg('std::num::ParseIntError', ())))
         return
+    if name in ('f32', 'f64'):
+        yield from parse_float_model(it, st, s, name)
+        return
     # any other FromStr: dispatch to the implementation (repository type) or its model
     yield from it.call(ctx.fr, f'<{ty_str(tgt)} as std::str::FromStr>::from_str', [args[0]], st)
+
+
+def parse_float_model(it, st, s, name):
+    """str::parse::<f32|f64> (std's dec2flt: correctly rounded, RNE) on a bounded symbolic text.
+    Exact for plain decimals  [+-]? digits [. digits*]  |  [+-]? . digits+  with few enough digits that the digit string is an exact
+    float (f32: <= 7, f64: <= 15 digits): the value is RNE(p / 10^f), which is what IEEE division of the two exact operands yields.
+    A text containing a byte that no float spelling contains is an error.  Everything else (exponents, inf, nan, long digit
+    strings) gets an unconstrained outcome: sound over-approximation, counterexamples through it are replayed natively."""
+    so = z3.Float32() if name == 'f32' else z3.Float64()
+    maxd = 7 if name == 'f32' else 15
+    K = len(s.bytes)
+    W = 64
+    p = z3.BitVecVal(0, W)
+    nd = z3.BitVecVal(0, 8)          # digits seen
+    nf = z3.BitVecVal(0, 8)          # digits after the dot
+    dot = z3.BoolVal(False)
+    valid = z3.BoolVal(True)
+    alien = z3.BoolVal(False)        # some byte that occurs in no float spelling
+    neg = z3.BoolVal(False)
+    for i, b in enumerate(s.bytes):
+        here = z3.ULT(bv(i), s.len)
+        isd = z3.And(z3.UGE(b, 48), z3.ULE(b, 57))
+        issign = z3.Or(b == 43, b == 45) if i == 0 else z3.BoolVal(False)
+        isdot = b == 46
+        letter = z3.Or(*[b == c for c in b'eEinfatyINFATY'])
+        alien = z3.Or(alien, z3.And(here, z3.Not(z3.Or(isd, b == 43, b == 45, isdot, letter))))
+        ok_here = z3.Or(isd, issign, z3.And(isdot, z3.Not(dot)))
+        valid = z3.And(valid, z3.Or(z3.Not(here), ok_here))
+        p = z3.If(z3.And(here, isd), p * 10 + z3.ZeroExt(W - 8, b - 48), p)
+        nd = z3.If(z3.And(here, isd), nd + 1, nd)
+        nf = z3.If(z3.And(here, isd, dot), nf + 1, nf)
+        dot = z3.Or(dot, z3.And(here, isdot))
+        if i == 0:
+            neg = z3.And(here, b == 45)
+    plain = z3.And(valid, z3.UGE(nd, 1))
+    exact = z3.And(plain, z3.ULE(nd, maxd))
+    pow10 = z3.FPVal(1.0, so)
+    for k in range(1, K + 1):
+        pow10 = z3.If(nf == k, z3.FPVal(float(10 ** k), so), pow10)
+    mag = z3.fpDiv(z3.RNE(), z3.fpUnsignedToFP(z3.RNE(), p, so), pow10)
+    val = z3.If(neg, z3.fpNeg(mag), mag)
+    err = Agg('std::num::ParseFloatError', ())
+    for s2, a in fork_bool(it, st, alien):
+        if a:
+            yield s2, it.err(err)
+            continue
+        for s3, e in fork_bool(it, s2, exact):
+            if e:
+                yield s3, it.ok(val)
+                continue
+            n = it.counter = getattr(it, 'counter', 0) + 1
+            fresh = z3.FP(f'parse_{name}_{n}', so)
+            for s4, good in fork_bool(it, s3, z3.Bool(f'parse_{name}_{n}_ok')):
+                yield s4, (it.ok(fresh) if good else it.err(err))
+
+
+def M_str_split_once_char(it, ctx, args, st):
+    """str::split_once(ch) for a concrete ASCII char: the text before and after its first occurrence"""
+    s = sval(st, args[0])
+    ch = concrete(args[1])
+    if ch is None or ch >= 128:
+        raise Unsupported('split_once with a symbolic / non-ASCII char')
+    K = len(s.bytes)
+
+    def go(st, k):
+        if k >= K:
+            yield st, it.none
+            return
+        for s2, more in fork_bool(it, st, z3.UGT(s.len, bv(k))):
+            if not more:
+                yield s2, it.none
+                continue
+            for s3, hit in fork_bool(it, s2, s.bytes[k] == ch):
+                if hit:
+                    a, b = bstr_slice(s, bv(0), bv(k)), bstr_slice(s, bv(k + 1), s.len)
+                    yield s3, it.some(Agg('tuple', (s3.ref(a), s3.ref(b))))
+                else:
+                    yield from go(s3, k + 1)
+    yield from go(st, 0)
 
 
 # ------------------------------------------------------------------ lazy iterators  It(kind, src, f, pos, cur)
@@ -2139,10 +2221,11 @@ MODELS = [
     (r'<u8 as ' + P + r'convert::TryFrom<char>>::try_from', M_u8_try_from_char),
     (r'<' + P + r'(?:result::Result|option::Option)<.*> as ' + P + r'iter::IntoIterator>::into_iter', M_res_into_iter, lambda it, ctx, args, st: isinstance(args[0], Enum) or (isinstance(args[0], Ptr) and isinstance(st.deref_all(args[0]), Enum))),
     (r'<(?:[iu](?:8|16|32|64|128|size)|f64|f32|bool) as ' + P + r'str::FromStr>::from_str', M_from_str_trait),
+    (P + r'str::<impl str>::split_once::<char>', M_str_split_once_char),
     (P + r'str::<impl str>::starts_with::<&str>', M_str_starts_with_str), (P + r'str::<impl str>::ends_with::<&str>', M_str_ends_with_str),
     (P + r'slice::<impl \[u8\]>::starts_with', M_str_starts_with_str), (P + r'slice::<impl \[u8\]>::ends_with', M_str_ends_with_str),
-    (ITER + r'peekable', M_iter_peekable), (P + r'iter::Peekable::<.*>::peek', M_peekable_peek),
-    (r'<' + P + r'iter::Peekable<.*> as ' + P + r'iter::Iterator>::next', M_peekable_next),
+    (ITER + r'peekable', M_iter_peekable), (P + r'iter::Peekable::<.*>::peek', M_peekable_peek, is_peekable),
+    (r'<' + P + r'iter::Peekable<.*> as ' + P + r'iter::Iterator>::next', M_peekable_next, is_peekable),
     (ITER + r'skip', M_iter_skip_take('skip')), (ITER + r'take', M_iter_skip_take('take')), (ITER + r'chain::<.*>', M_iter_chain),
     (ITER + r'last', M_iter_last), (ITER + r'nth', M_iter_nth),
     (ITER + r'partition::<.*>', M_partition),
